@@ -79,7 +79,7 @@ Section Preserve.
     Proof.
       intros H. unfold create.
       destruct (r_form (ds_reg d)) as [t|io0 ps1 rets er|io0 ps1 fs er] eqn:Hf.
-      - cbn [fst]. unfold Prs, with_p; cbn [rs_p]. apply P_set_instance. exact H.
+      - cbn [fst]. unfold Prs, with_p; cbn [rs_p]. apply P_share_all. apply P_set_instance. exact H.
       - destruct (reg_params (ds_reg d)) as [inobj ps0].
         pose proof (args_loop_P ps0 rs h inobj [] H) as H1.
         destruct (args_loop recd rs h inobj ps0 []) as [rs1 [args|e]]; cbn [fst] in *; [|exact H1].
